@@ -584,6 +584,8 @@ class Gen:
             outs.append(outs[0])
         spec = {"opset": 18, "inputs": inputs, "inits": inits, "nodes": nodes, "outputs": [[n, k] for n, k in outs],
                 "functions": self.functions}
+        if r.random() < 0.4:
+            spec = generated_looking_names(spec, r)
         return spec
 
 
@@ -591,6 +593,52 @@ OUT_KINDS = {"F1": (TP.FLOAT, [1]), "F12": (TP.FLOAT, [1, 2]), "F4": (TP.FLOAT, 
              "F112": (TP.FLOAT, [1, 1, 2]), "B2": (TP.BOOL, [2]), "I112": (TP.INT64, [1, 1, 2]), "F": (TP.FLOAT, []), "I3": (TP.INT64, [3])}
 for _k, _v in OUT_KINDS.items():
     KINDS.setdefault(_k, _v)
+
+
+def _rename_graphlike(nodes, outputs, mapping):
+    def r(x):
+        return mapping.get(x, x)
+    for n in nodes:
+        n["ins"] = [r(i) for i in n["ins"]]
+        n["outs"] = [r(o) for o in n["outs"]]
+        for tv in n.get("attrs", {}).values():
+            if tv[0] == "g":
+                _rename_graphlike(tv[1]["nodes"], None, mapping)
+                tv[1]["outputs"] = [[r(o), k] for o, k in tv[1]["outputs"]]
+    if outputs is not None:
+        outputs[:] = [r(o) for o in outputs]
+
+
+def _produced(nodes):
+    out = []
+    for n in nodes:
+        out += [o for o in n["outs"] if o]
+        for tv in n.get("attrs", {}).values():
+            if tv[0] == "g":
+                out += _produced(tv[1]["nodes"])
+    return out
+
+
+def generated_looking_names(spec, rng):
+    """Rename values so that function bodies and the main graph share names of the shape the name generators produce
+    (t, t_2, val_3 ...): function-internal names are function-scoped, so this is legal; inlining must keep them apart."""
+    pool_f = ["t", "t_2", "u", "t_3", "val", "val_2", "node_out", "u_2"]
+    for f in spec.get("functions", []):
+        internal = [v for v in dict.fromkeys(_produced(f["nodes"])) if v not in f["ins"]]
+        rng.shuffle(internal)
+        names = [n for n in pool_f]
+        rng.shuffle(names)
+        mapping = dict(zip(internal, names))
+        _rename_graphlike(f["nodes"], f["outs"], mapping)
+    pool_m = ["t_2", "t_3", "t", "u_2", "val_2", "val_3", "t_4", "u", "u_3", "val"]
+    rng.shuffle(pool_m)
+    taken = {n for n, _ in spec["inputs"]} | {i[0] for i in spec["inits"]}
+    produced = [v for v in dict.fromkeys(_produced(spec["nodes"])) if v not in taken]
+    rng.shuffle(produced)
+    mapping = dict(zip(produced[:rng.choice([2, 4, 6])], pool_m))
+    _rename_graphlike(spec["nodes"], None, mapping)
+    spec["outputs"] = [[mapping.get(o, o), k] for o, k in spec["outputs"]]
+    return spec
 
 
 # --------------------------------------------------------------------------- execution oracle
@@ -618,6 +666,29 @@ def feeds_for(mp: onnx.ModelProto, seed: int):
     return vals
 
 
+def initbacked_inputs(mp):
+    init_names = {i.name for i in mp.graph.initializer}
+    return [vi for vi in mp.graph.input if vi.name in init_names]
+
+
+def override_vals(mp: onnx.ModelProto, seed: int):
+    """Feeds for the initializer-backed (overridable) inputs: values that differ from their default."""
+    rs = np.random.RandomState(seed ^ 0x5A5A)
+    vals = []
+    for vi in initbacked_inputs(mp):
+        tt = vi.type.tensor_type
+        shape = [d.dim_value for d in tt.shape.dim]
+        if tt.elem_type == TP.FLOAT:
+            vals.append((rs.randn(*shape) * 3 + 7).astype(np.float32))
+        elif tt.elem_type == TP.BOOL:
+            vals.append(np.array(rs.rand(*shape) < 0.5))
+        elif tt.elem_type in (TP.INT64, TP.INT32):
+            vals.append(rs.randint(5, 9, size=shape).astype(np.int64 if tt.elem_type == TP.INT64 else np.int32))
+        else:
+            vals.append(np.array([b"zz"] * int(np.prod(shape) or 1), dtype=object).reshape(shape))
+    return vals
+
+
 def noninit_inputs(mp):
     init_names = {i.name for i in mp.graph.initializer}
     return [vi for vi in mp.graph.input if vi.name not in init_names]
@@ -642,11 +713,18 @@ def same_value(a, b) -> bool:
     return bool(np.array_equal(a, b))
 
 
-def run_ref(mp, vals):
+def feed_dict(mp, vals, ov=None):
+    """non-initializer inputs by position; initializer-backed inputs overridden by position when `ov` is given."""
+    feeds = dict(zip([vi.name for vi in noninit_inputs(mp)], vals))
+    if ov is not None:
+        feeds.update(zip([vi.name for vi in initbacked_inputs(mp)], ov))
+    return feeds
+
+
+def run_ref(mp, vals, ov=None):
     from onnx.reference import ReferenceEvaluator
-    names = [vi.name for vi in noninit_inputs(mp)]
     with np.errstate(all="ignore"):
-        return ReferenceEvaluator(mp).run(None, dict(zip(names, vals)))
+        return ReferenceEvaluator(mp).run(None, feed_dict(mp, vals, ov))
 
 
 def run_ort(mp, vals):
